@@ -98,7 +98,7 @@ def readers(ctx, idx, rule):
         for line, target, val, node, fk in r.maskstores:
             if isinstance(val, Arr) and val.cmp is not None and val.cmp[2] is not None and any(("kw:" + m) in str(val.cmp[2]) for m in miss_params):
                 good.append((line, target, val))
-        rets = [v for _, v, _ in r.returns if isinstance(v, Arr)]
+        rets = R.returns_with_parameter(d, r, miss_params)
         if not good:
             ctx.violate(rule, con, d.module.rel, d.execute.node.lineno,
                         "no mask derived from a comparison of the data with the cleaned `%s` parameter is stored on the array" % miss_params[0])
